@@ -6,6 +6,10 @@ import RactorModel.Lemmas.FactoryStop
 import RactorModel.Lemmas.FactoryActors
 import RactorModel.Lemmas.FactoryNoPanic
 import RactorModel.Lemmas.FactoryNoDrop
+import RactorModel.Lemmas.FactoryPort
+import RactorModel.Lemmas.FactoryReason
+import RactorModel.Lemmas.FactoryHeartbeat
+import RactorModel.Lemmas.FactoryReject
 
 /-!
 # C13 — Factory: every job meets exactly one fate, never runs twice
@@ -485,6 +489,165 @@ example : handledOf ((init shrinkDrainCase).runSteps (shrinkDrainSteps.take 6)) 
 example : handledOf ((init shrinkDrainCase).runSteps shrinkDrainSteps) = [5, 7] ∧
     ((init shrinkDrainCase).runSteps shrinkDrainSteps).exited = true := by decide +kernel
 
+/-! ## Round 4, wave 2: the acceptance port over whole runs -/
+
+/-- (acceptance port, conservation over runs) For every case, EVERY op sequence and schedule and every job id `i`: the
+answers given so far on ports of `i` plus the port-carrying dispatches of `i` still unhandled in the factory's mailbox are
+exactly the port-carrying dispatches of `i`. No port is answered that was not handed in, none is answered twice, none is
+forgotten once its dispatch has been handled. -/
+theorem acceptance_port_conservation (c : CaseCfg) (steps : List Step) (i : Nat) :
+    ((init c).runSteps steps).env.log.countP (isAnswerEv i) + pendingPorts i ((init c).runSteps steps).inbox
+      = ((init c).runSteps steps).env.log.countP (isPortDispatchEv i) := by
+  rw [← countP_ans, ← countP_ask]
+  exact port_conservation_run c steps i
+
+/-- (answered at most once, never both ways) If job id `i` was dispatched with a port at most once, then over the whole
+run its port gets at most one answer: the history cannot contain both `None` and `Some(job)` for it, nor the same answer
+twice, nor an answer and a closed port. -/
+theorem acceptance_port_answered_at_most_once (c : CaseCfg) (steps : List Step) (i : Nat)
+    (h1 : ((init c).runSteps steps).env.log.countP (isPortDispatchEv i) ≤ 1) :
+    ((init c).runSteps steps).env.log.countP (isAnswerEv i) ≤ 1 := by
+  have := acceptance_port_conservation c steps i
+  omega
+
+theorem acceptance_port_never_both (c : CaseCfg) (steps : List Step) (i : Nat)
+    (h1 : ((init c).runSteps steps).env.log.countP (isPortDispatchEv i) ≤ 1) :
+    ¬ (Ev.reply i false ∈ ((init c).runSteps steps).env.log ∧ Ev.reply i true ∈ ((init c).runSteps steps).env.log) := by
+  intro ⟨ha, hb⟩
+  have h2 := acceptance_port_answered_at_most_once c steps i h1
+  generalize ((init c).runSteps steps).env.log = log at ha hb h2
+  obtain ⟨s, t, rfl⟩ := List.append_of_mem ha
+  have hb' : Ev.reply i true ∈ s ∨ Ev.reply i true ∈ t := by
+    rcases List.mem_append.mp hb with h | h
+    · exact Or.inl h
+    · rcases List.mem_cons.mp h with h | h
+      · cases h
+      · exact Or.inr h
+  have e1 : isAnswerEv i (Ev.reply i false) = true := by simp [isAnswerEv]
+  have e2 : isAnswerEv i (Ev.reply i true) = true := by simp [isAnswerEv]
+  rw [List.countP_append, List.countP_cons, e1] at h2
+  simp only [if_true] at h2
+  rcases hb' with h | h
+  · have := List.countP_pos_iff.mpr ⟨_, h, e2⟩; omega
+  · have := List.countP_pos_iff.mpr ⟨_, h, e2⟩; omega
+
+/-- (answered exactly once) A port-carrying dispatch of `i` that is no longer in the factory's mailbox has been answered
+exactly once — accepted, handed back, or (only when the factory actor exited with the message unread) closed. In particular
+at every quiescent point of a running factory (`inbox = []`) every port handed in so far has its one answer. -/
+theorem acceptance_port_answered_exactly_once (c : CaseCfg) (steps : List Step) (i : Nat)
+    (h1 : ((init c).runSteps steps).env.log.countP (isPortDispatchEv i) = 1)
+    (hp : pendingPorts i ((init c).runSteps steps).inbox = 0) :
+    ((init c).runSteps steps).env.log.countP (isAnswerEv i) = 1 := by
+  have := acceptance_port_conservation c steps i
+  omega
+
+/-- (a port is never left dangling by a running factory) While the factory actor has not exited, no acceptance port has
+been dropped unanswered: `portClosed` occurs only when the factory exits with the dispatch still unread in its mailbox. -/
+theorem acceptance_port_closed_only_at_exit (c : CaseCfg) (steps : List Step)
+    (hx : ((init c).runSteps steps).exited = false) (i : Nat) :
+    Ev.portClosed i ∉ ((init c).runSteps steps).env.log :=
+  port_closed_only_at_exit_run c steps hx i
+
+/-- (answered exactly once BY A REPLY while the factory runs) If the factory has not exited, a port-carrying dispatch of `i`
+that has left the mailbox has received exactly one `None`/`Some(job)`. -/
+theorem acceptance_port_replied_exactly_once (c : CaseCfg) (steps : List Step) (i : Nat)
+    (hx : ((init c).runSteps steps).exited = false)
+    (h1 : ((init c).runSteps steps).env.log.countP (isPortDispatchEv i) = 1)
+    (hp : pendingPorts i ((init c).runSteps steps).inbox = 0) :
+    ((init c).runSteps steps).env.log.countP (isReplyEv i) = 1 := by
+  have h2 := acceptance_port_answered_exactly_once c steps i h1 hp
+  have h3 := acceptance_port_closed_only_at_exit c steps hx
+  rw [countP_reply_eq i _ h3]
+  exact h2
+
+/-- (no unrequested answer) a job dispatched without a port never gets an answer -/
+theorem acceptance_port_no_unrequested_answer (c : CaseCfg) (steps : List Step) (i : Nat)
+    (h0 : ((init c).runSteps steps).env.log.countP (isPortDispatchEv i) = 0) (b : Bool) :
+    Ev.reply i b ∉ ((init c).runSteps steps).env.log := by
+  intro hm
+  have := acceptance_port_conservation c steps i
+  have hpos : 0 < ((init c).runSteps steps).env.log.countP (isAnswerEv i) :=
+    List.countP_pos_iff.mpr ⟨_, hm, by simp [isAnswerEv]⟩
+  omega
+
+
+/-- (hand-back soundness over whole runs) For every case, EVERY op sequence and schedule: every `Some(job)` answered on an
+acceptance port (`reply id true`) is IMMEDIATELY preceded, in the history, by a discard-handler call for that very job —
+a job is handed back only by the branch that has just reported it (expired, refused while draining, rate-limited, shed), with
+that branch's reason; an accepted job (`None`) is never accompanied by a hand-back (`acceptance_port_never_both`). -/
+theorem rejected_port_follows_its_discard (c : CaseCfg) (steps : List Step) (pre post : List Ev) (id : Nat)
+    (hs : ((init c).runSteps steps).env.log = pre ++ Ev.reply id true :: post) :
+    ∃ pre' r h, pre = pre' ++ [Ev.discard r id h] :=
+  rejected_follows_discard_run c steps pre post id hs
+
+
+/-! ## Round 4, wave 2: discard reasons over whole runs -/
+
+/-- (reason soundness, RateLimited) For every case, EVERY op sequence and schedule: a discard-handler call with reason
+`RateLimited` occurs only in a factory whose router is wrapped in a rate limiter — no other branch of the factory or of a
+worker reports that reason. -/
+theorem rate_limited_discard_needs_limiter (c : CaseCfg) (steps : List Step) (id : Nat) (h : Option Nat)
+    (hm : Ev.discard .rateLimited id h ∈ ((init c).runSteps steps).env.log) : c.rl.isSome = true :=
+  rate_limited_needs_limiter_run c steps id h hm
+
+/-- (reason soundness, Shutdown) For every case, EVERY op sequence and schedule: every discard-handler call with reason
+`Shutdown` comes, in the history, AFTER the draining hook — only a factory that has handled `DrainRequests` refuses or
+abandons a job for shutdown; a job that merely expired or was shed before that is never reported as `Shutdown`. -/
+theorem shutdown_discard_only_after_drain (c : CaseCfg) (steps : List Step) (id : Nat) (h : Option Nat) (pre post : List Ev)
+    (hs : ((init c).runSteps steps).env.log = pre ++ Ev.discard .shutdown id h :: post) : Ev.hook .draining ∈ pre :=
+  shutdown_after_drain_run c steps id h pre post hs
+
+/-- corollary: a factory that was never asked to drain reports no `Shutdown` discard -/
+theorem no_shutdown_discard_without_drain (c : CaseCfg) (steps : List Step) (id : Nat) (h : Option Nat)
+    (hn : Ev.hook .draining ∉ ((init c).runSteps steps).env.log) :
+    Ev.discard .shutdown id h ∉ ((init c).runSteps steps).env.log := by
+  intro hm
+  obtain ⟨pre, post, hs⟩ := List.append_of_mem hm
+  exact hn (by rw [hs]; exact List.mem_append_left _ (shutdown_discard_only_after_drain c steps id h pre post hs))
+
+/-- non-vacuity: the drain demo above (`shrinkDrainCase`) followed by one more dispatch reports it as `Shutdown` -/
+example : (((init shrinkDrainCase).runSteps (shrinkDrainSteps.take 5 ++ [⟨.dispatch 9 1 0 none false, 11000000, 12000000, 13000000⟩])).env.log.filterMap
+    fun | .discard r i _ => some (r, i) | _ => none) = [(.shutdown, 9)] := by decide +kernel
+
+/-- non-vacuity: plain queuer, one worker, factory queue limit 1 / Newest; three port-carrying dispatches: the first is
+handed to the worker (accepted), the second is queued (accepted), the third is shed (handed back) -/
+def portDemoCase : CaseCfg :=
+  { cfg := { router := .q, prioQueue := false, hasHandler := true, table := [], hasCC := false }, n := 1,
+    disc := some (1, .newest), rl := none }
+def portDemoSteps : List Step :=
+  [⟨.dispatch 5 1 0 none true, 1000000, 2000000, 3000000⟩, ⟨.dispatch 6 1 0 none true, 3000000, 4000000, 5000000⟩,
+   ⟨.dispatch 7 1 0 none true, 5000000, 6000000, 7000000⟩]
+example : (((init portDemoCase).runSteps portDemoSteps).env.log.filterMap fun | .reply i b => some (i, b) | _ => none)
+    = [(5, false), (6, false), (7, true)] := by decide +kernel
+example : ((init portDemoCase).runSteps portDemoSteps).env.log.countP (isAnswerEv 7) = 1 := by decide +kernel
+
+/-! ## Round 4, wave 2: the dead-man's switch (worker heartbeat) -/
+
+/-- (dead-man's switch) For EVERY sequence of pings, job starts, completions and earlier checks of one worker slot, at
+whatever instants: if `IdentifyStuckWorkers` at instant `t` declares the worker stuck for `detection_timeout`, the worker
+is inside a job at that moment, that one job was already running when the unanswered ping went out, and it has been
+running for longer than `detection_timeout`. Killing the worker then is a `kill` of an actor that holds exactly that job:
+by `die_loses_only_held` / `one_job_lost_per_death_partial` that job and nothing else gets the fate `lost`. -/
+theorem dead_mans_switch_only_long_jobs (es : List Heartbeat.Ev) (t timeout : Nat)
+    (h : (({} : Heartbeat.Slot).run es).stuckAt t timeout = true) :
+    ∃ t0 u, ((({} : Heartbeat.Slot).run es).advance t).running = some t0 ∧
+      ((({} : Heartbeat.Slot).run es).advance t).hb.sentAt = some u ∧ t0 ≤ u ∧
+      ((({} : Heartbeat.Slot).run es).advance t).now - t0 > timeout :=
+  Heartbeat.stuck_means_one_long_job es t timeout h
+
+/-- (dead-man's switch) an idle worker is never declared stuck, however long ago it was pinged -/
+theorem dead_mans_switch_spares_idle (es : List Heartbeat.Ev) (t timeout : Nat)
+    (hr : ((({} : Heartbeat.Slot).run es).advance t).running = none) :
+    (({} : Heartbeat.Slot).run es).stuckAt t timeout = false :=
+  Heartbeat.idle_never_stuck es t timeout hr
+
+/-- non-vacuity: a job started at 0, pinged at 10, still running at 200 with timeout 100: stuck; the same ping to an idle
+worker, or a job that returned at 50: not stuck -/
+example : (({} : Heartbeat.Slot).run [.start 0, .ping 10]).stuckAt 200 100 = true := by decide
+example : (({} : Heartbeat.Slot).run [.ping 10]).stuckAt 200 100 = false := by decide
+example : (({} : Heartbeat.Slot).run [.start 0, .ping 10, .finish 50, .start 60]).stuckAt 200 100 = false := by decide
+
+
 end C13
 
 #print axioms C13.reject_log
@@ -515,3 +678,16 @@ end C13
 #print axioms C13.drained_means_every_worker_free
 #print axioms C13.stop_signal_only_over_idle_pool
 #print axioms C13.post_stop_abandons_nothing
+#print axioms C13.acceptance_port_conservation
+#print axioms C13.acceptance_port_answered_at_most_once
+#print axioms C13.acceptance_port_never_both
+#print axioms C13.acceptance_port_answered_exactly_once
+#print axioms C13.acceptance_port_no_unrequested_answer
+#print axioms C13.rate_limited_discard_needs_limiter
+#print axioms C13.shutdown_discard_only_after_drain
+#print axioms C13.no_shutdown_discard_without_drain
+#print axioms C13.acceptance_port_closed_only_at_exit
+#print axioms C13.acceptance_port_replied_exactly_once
+#print axioms C13.dead_mans_switch_only_long_jobs
+#print axioms C13.dead_mans_switch_spares_idle
+#print axioms C13.rejected_port_follows_its_discard
